@@ -7,6 +7,7 @@
 From Coq Require Import List String ZArith NArith Bool.
 Import ListNotations.
 From DV Require Import Model.Decision Gen.GoastImportsSrc Proofs.GoastStepProofs.
+From DV Require Import Proofs.StripVendorProofs.
 From DV Require Import Model.Resolvers Proofs.ResolverProofs Proofs.ResolverAgree Gen.ResolverSrc
   Model.Decision Model.DecisionInterp Gen.DecisionSrc Proofs.DecisionProofs.
 Local Open Scope string_scope.
@@ -157,6 +158,36 @@ Proof. exact goast_scan_by_steps. Qed.
 Theorem C09_goast_imports_source_is_within_the_vocabulary : step_vocabulary_ok && goast_imports_frame_ok = true.
 Proof. vm_compute. reflexivity. Qed.
 
+(* stripVendor, for EVERY path (Model.Resolvers.strip_vendor; the source text is pinned and the model
+   is corresponded on every run): nothing of a vendor directory is left in the result, so resolvePath's
+   comparison stripVendor(path) == stripVendor(f.Path) compares effective import paths; only a prefix
+   is ever removed; a path without a vendor directory is returned as it is; the LAST vendor directory
+   decides, whatever precedes it *)
+Theorem C09_strip_vendor_leaves_no_vendor_directory : forall p,
+  after_last_vendor (strip_vendor p) = None /\ prefixb "vendor/" (strip_vendor p) = false.
+Proof. exact strip_vendor_leaves_no_vendor. Qed.
+
+Theorem C09_strip_vendor_is_idempotent : forall p, strip_vendor (strip_vendor p) = strip_vendor p.
+Proof. exact strip_vendor_idempotent. Qed.
+
+Theorem C09_strip_vendor_removes_only_a_prefix : forall p, exists pre, p = (pre ++ strip_vendor p)%string.
+Proof. exact strip_vendor_is_suffix. Qed.
+
+Theorem C09_strip_vendor_keeps_unvendored_paths : forall p,
+  after_last_vendor p = None -> prefixb "vendor/" p = false -> strip_vendor p = p.
+Proof. exact strip_vendor_unvendored_unchanged. Qed.
+
+Theorem C09_strip_vendor_last_vendor_directory_decides : forall pre t,
+  after_last_vendor t = None -> prefixb "vendor/" t = false ->
+  strip_vendor (pre ++ "/vendor/" ++ t)%string = t /\ strip_vendor ("vendor/" ++ t)%string = t.
+Proof. exact strip_vendor_last_vendor_decides. Qed.
+
+Example C09_strip_vendor_laws_are_not_vacuous :
+  after_last_vendor "golang.org/x/net/idna" = None /\ prefixb "vendor/" "golang.org/x/net/idna" = false /\
+  strip_vendor "a/vendor/b/vendor/golang.org/x/net/idna" = "golang.org/x/net/idna" /\
+  strip_vendor "vendorx/y" = "vendorx/y" /\ strip_vendor "x/vendor" = "x/vendor".
+Proof. exact strip_vendor_laws_nonvacuous. Qed.
+
 Print Assumptions C09_translated_sources_are_within_the_vocabulary.
 Print Assumptions C09_gotypes_source_computes_the_model.
 Print Assumptions C09_goast_source_computes_the_model.
@@ -173,3 +204,8 @@ Print Assumptions C09_goast_refuses_dot_imports.
 Print Assumptions C09_goast_import_case_source_computes_the_model.
 Print Assumptions C09_goast_scan_iterates_the_step.
 Print Assumptions C09_goast_imports_source_is_within_the_vocabulary.
+Print Assumptions C09_strip_vendor_leaves_no_vendor_directory.
+Print Assumptions C09_strip_vendor_is_idempotent.
+Print Assumptions C09_strip_vendor_removes_only_a_prefix.
+Print Assumptions C09_strip_vendor_keeps_unvendored_paths.
+Print Assumptions C09_strip_vendor_last_vendor_directory_decides.
